@@ -814,6 +814,22 @@ func GenC20(seed uint64) *Plan {
 	}
 	p.C20 = cs
 	p.Checks["permute_integrations"] = true
+	if !cs.ExpectRunError && len(cs.DBSources) == 0 && g.chance(15) {
+		// free-running layer: real time, no hooks, several dashboard saves a
+		// few hundred microseconds apart
+		p.FreeSteps = 1
+		for _, i := range []int{0, 1} {
+			if i < len(p.Sources) {
+				p.Sources[i].PollMs = g.between(2, 5)
+			}
+		}
+		for len(cs.Saves) < 2 {
+			d := mk(fmt.Sprintf("saved%d", len(cs.Saves)), uint64(g.between(1, 5)))
+			d.Enabled = true
+			cs.Saves = append(cs.Saves, d)
+		}
+		p.Checks["permute_integrations"] = false
+	}
 	p.Faults = FaultPlan{HealAt: g.between(200, 900), GrowPerMille: 20, MaxGrow: 10}
 	p.MaxSteps = 2500
 	return p
@@ -821,5 +837,10 @@ func GenC20(seed uint64) *Plan {
 
 func init() {
 	Generators["C20"] = GenC20
-	Runners["C20"] = RunC20
+	Runners["C20"] = func(t *testing.T, plan *Plan, st *core.Stream, extra Extra, keepLog bool) *Result {
+		if plan.FreeSteps > 0 {
+			return RunC20Free(t, plan, st, extra, keepLog)
+		}
+		return RunC20(t, plan, st, extra, keepLog)
+	}
 }
